@@ -214,6 +214,13 @@ def wl_history(ctx, rng, i):
         else:
             for (v, k, nm), c in sorted(model.items()):
                 check_parse(ctx, rng, k, v, nm, c, {"step": "parse-all", "kind": k, "version": v, "name": nm})
+            for v in VERS:
+                for nm in ("tlp", "statement", "ntfs-ext", "archive-ext"):
+                    top = {"type": nm, "id": "%s--%s" % (nm, V.uuid_text(rng, 4)), "created": "2020-01-01T00:00:00.000Z", "modified": "2020-01-01T00:00:00.000Z"}
+                    st7, r7 = parse_outcome(top, (lambda o: o), allow_custom=True, version=v)
+                    ctx.ev()
+                    if st7 == "class" and not isinstance(r7, dict):
+                        ctx.violation("registration-leaks-into-other-category", "a top-level object of built-in marking/extension type %r parsed to %s" % (nm, type(r7).__name__), {"input": top, "version": v})
     if ctx.want_sample():
         ctx.sample({"history": steps, "registered": [list(k) for k in model]})
 
@@ -244,6 +251,19 @@ def check_parse(ctx, rng, kind, ver, name, cls, w):
             ctx.violation("registered-type-round-trip", "instance of %r does not survive serialize/parse" % name, dict(w, input=d))
     except family() as e:
         ctx.violation("registered-type-round-trip", "instance of %r: round trip raised %s" % (name, type(e).__name__), dict(w, input=d, exception=repr(e)))
+    # a name registered as a marking or an extension is not thereby a top-level object type (category-exact lookup)
+    if kind in ("marking", "extension") and looks_up("object", ver, name) is None and looks_up("observable", ver, name) is None:
+        top = {"type": name, "id": "%s--%s" % (name, V.uuid_text(rng, 4)), "created": "2020-01-01T00:00:00.000Z", "modified": "2020-01-01T00:00:00.000Z", "prop_one": "v"}
+        if ver == "2.1":
+            top["spec_version"] = "2.1"
+        st5, r5 = parse_outcome(top, (lambda o: o), allow_custom=True, version=ver)
+        ctx.ev()
+        ctx.count("cross_category_probes")
+        if st5 == "class" and not isinstance(r5, dict):
+            ctx.violation("registration-leaks-into-other-category", "a top-level object of type %r (registered only as %s) parsed to %s" % (name, kind, type(r5).__name__), dict(w, input=top))
+        st6, r6 = parse_outcome(top, (lambda o: o), allow_custom=False, version=ver)
+        if st6 == "class":
+            ctx.violation("registration-leaks-into-other-category", "strict parse accepted a top-level object of type %r (registered only as %s)" % (name, kind), dict(w, input=top))
     # the other version must not know the name (unless registered there too)
     other = "2.0" if ver == "2.1" else "2.1"
     if looks_up(kind, other, name) is None and kind in ("object",):
